@@ -21,6 +21,9 @@ def _shard(args):
             msg = oracle_vm.check_calls_c03(case, st, r)
             if msg:
                 oracle_bad.append({'case': case, 'steps': steps[:i + 1], 'step': i, 'msg': msg})
+        rep = oracle_vm.check_repeat_c03(case, steps, real)
+        if rep:
+            oracle_bad.append({'case': case, 'steps': steps[:rep[0] + 1], 'step': rep[0], 'msg': rep[1]})
     case, steps, real, model, diffs = out['results'][0]
     return out['stats'], bad, oracle_bad, {'nodes': case['nodes'], 'steps': steps, 'real_logs': [r.get('log') for r in real]}
 
@@ -53,4 +56,7 @@ def replay(obj, kind):
         msg = oracle_vm.check_calls_c03(case, st, r)
         if msg:
             return False, 'still failing on the real code: ' + msg
+    rep = oracle_vm.check_repeat_c03(case, steps, real)
+    if rep:
+        return False, 'still failing on the real code: ' + rep[1]
     return True, 'the oracle passes on the recorded case'
